@@ -6,7 +6,9 @@ from msdparser import MSDParserError
 
 from .. import gen, models, ops
 from ..core import RunResult, HarnessError, shash
-from ..facades import Facade
+from ..facades import Facade, make_disk
+
+NATIVE_LIKE = ("native", "realos")
 from ..models import (LoadError, RefSimfile, ref_encoding, ref_load, universal_newlines,
                       DEFAULT_ENCODINGS, dep_roundtrip_ok, gap_classes, ref_emit, serialisable)
 from ..simdisk import (SimDisk, SimKill, InvariantViolation, InjectedOSError, OPEN_W, OPEN_R,
@@ -43,7 +45,8 @@ def _kind_of_name(name):
 
 def generate(prop, rng, run, tier):
     fmt = rng.choice(["sm", "ssc"])
-    facade = rng.choice(["simfs", "native"])
+    facade = gen.wchoice(rng, [("simfs", 46), ("native", 46), ("memoryfs", 4), ("realos", 4)]) \
+        if prop == "C05" else rng.choice(["simfs", "native"])
     # encoding of the stored file
     enc = gen.wchoice(rng, [("utf-8", 3), ("cp1252", 2), ("cp932", 2), ("cp949", 2), ("ascii", 1)])
     profile = "plain" if enc == "ascii" else "enc:" + enc
@@ -178,6 +181,18 @@ def fixed_scenarios(prop):
                                 "world": {"dirs": ["/Pack", d], "files": files},
                                 "ops": [{"op": "set_attr", "attr": "title", "value": "new title"},
                                         {"op": "set_key", "key": "CUSTOM", "value": "x:y;z"}]})
+    if prop == "C05":
+        # fixed probe for the known finding (so that its KNOWN-FINDING line does not
+        # depend on the seed): cp1252 file with a key whose upper-case form leaves cp1252
+        for facade in ("simfs", "native"):
+            out.append({"workload": "mutate", "property": "C05", "fixed": "kf:uppercased-key",
+                        "config": {"facade": facade, "fmt": "sm", "input": "/Pack/Song/a.sm",
+                                   "output": None, "backup": None, "try_encodings": None,
+                                   "strict": True, "followup_noop": False},
+                        "world": {"dirs": ["/Pack/Song"],
+                                  "files": {"/Pack/Song/a.sm": "#TITLE:caf\u00e9;\n#\u00b5:x;\n"
+                                            .encode("cp1252").hex()}},
+                        "ops": []})
     return out
 
 
@@ -203,7 +218,7 @@ def run_once(sc, fault=None, body_raise=None, spoil=None, noop_on=None, hooks=No
     lib = ops.lib()
     cfg = sc["config"]
     disk_cfg = {"short_reads": cfg.get("short_reads"), "short_writes": cfg.get("short_writes")}
-    disk = SimDisk(sc["world"], disk_cfg, [fault] if fault else None)
+    disk = make_disk(sc["world"], disk_cfg, [fault] if fault else None, cfg["facade"])
     o = Outcome()
     o.disk = disk
     o.before = disk.snapshot()
@@ -234,8 +249,9 @@ def run_once(sc, fault=None, body_raise=None, spoil=None, noop_on=None, hooks=No
     with Facade(cfg["facade"], disk) as fa:
         kw.update(fa.kw)
         try:
-            with lib.simfile.mutate(_spell(inp, spelling), _spell(out, spelling) if out else out,
-                                    _spell(bak, spelling) if bak else bak, **kw) as sf:
+            with lib.simfile.mutate(fa.p(_spell(inp, spelling)),
+                                    fa.p(_spell(out, spelling)) if out else out,
+                                    fa.p(_spell(bak, spelling)) if bak else bak, **kw) as sf:
                 o.entered = True
                 o.events_at_entry = len(disk.events)
                 o.entry_plain = ops.real_plain(sf, lib)
@@ -264,7 +280,7 @@ def run_once(sc, fault=None, body_raise=None, spoil=None, noop_on=None, hooks=No
             if isinstance(e, HarnessError):
                 raise
             o.escaped = e
-    o.after = disk.snapshot()
+        o.after = disk.snapshot()
     return o
 
 
@@ -319,7 +335,7 @@ def _expect_entry(sc, data, facade):
     if enc is None:
         return None, None, None
     text = data.decode(enc)
-    if facade == "native":
+    if facade in NATIVE_LIKE:
         text = universal_newlines(text)
     kind = models.ref_detect(cfg["input"], text, True)   # detection ignores nothing here: see C03
     if isinstance(kind, LoadError):
@@ -351,7 +367,7 @@ def _in_domain(model, enc, facade):
         for c in p:
             if "\r" in c.replace("\r\n", ""):
                 return False, "bare-cr"
-            if facade == "native" and "\r" in c:
+            if facade in NATIVE_LIKE and "\r" in c:
                 return False, "cr-native"
             if not gen.encodable(c, enc):
                 return False, "unencodable"
@@ -511,6 +527,7 @@ def check_c05(sc, res):
     res.note("ok", facade, kind, enc, bool(out), bool(bak), shash(tshape) & 0xffff,
              len(sc["ops"]), cfg.get("buffering"))
     res.stats["probe:enc:" + enc] += 1
+    res.stats["probe:facade:" + facade] += 1
     if len(data) > 8192:
         res.stats["probe:multi-chunk-file"] += 1
     # --- clause 4: a no-op mutate on the written file leaves its bytes unchanged
@@ -537,7 +554,7 @@ def check_c05(sc, res):
 
 def _decoded(data, enc, facade):
     t = data.decode(enc)
-    return universal_newlines(t) if facade == "native" else t
+    return universal_newlines(t) if facade in NATIVE_LIKE else t
 
 
 def _check_open(sc, res, data, enc, kind, expect):
@@ -546,7 +563,7 @@ def _check_open(sc, res, data, enc, kind, expect):
     lib = ops.lib()
     cfg = sc["config"]
     P = "C05"
-    disk = SimDisk(sc["world"], {"short_reads": cfg.get("short_reads")})
+    disk = make_disk(sc["world"], {"short_reads": cfg.get("short_reads")}, None, cfg["facade"])
     kw = {"strict": bool(cfg.get("strict", True))}
     if cfg.get("try_encodings") is not None:
         kw["try_encodings"] = list(cfg["try_encodings"])
@@ -554,7 +571,7 @@ def _check_open(sc, res, data, enc, kind, expect):
     with Facade(cfg["facade"], disk) as fa:
         kw.update(fa.kw)
         try:
-            got = lib.simfile.open_with_detected_encoding(cfg["input"], **kw)
+            got = lib.simfile.open_with_detected_encoding(fa.p(cfg["input"]), **kw)
             err = None
         except Exception as e:
             got, err = None, e
@@ -583,7 +600,7 @@ def _check_open(sc, res, data, enc, kind, expect):
         ee = cfg.get("explicit_encoding")
         if ee:
             try:
-                sf = lib.simfile.open(cfg["input"], strict=kw["strict"], encoding=ee, **fa.kw)
+                sf = lib.simfile.open(fa.p(cfg["input"]), strict=kw["strict"], encoding=ee, **fa.kw)
                 err = None
             except Exception as e:
                 sf, err = None, e
@@ -610,7 +627,8 @@ def _check_open(sc, res, data, enc, kind, expect):
                     if gp != exp2.plain() and gp != ref_load(text, k2, kw["strict"], "").plain():
                         res.violate(P, "explicit-encoding-loaded-differs", encoding=ee, got=gp,
                                     expected=exp2.plain())
-    if _changed_paths(before, disk.snapshot()):
+        after = disk.snapshot()
+    if _changed_paths(before, after):
         res.violate(P, "open-changed-disk")
 
 
@@ -673,6 +691,16 @@ def check_c06(sc, res):
                 raise InvariantViolation("output-opened-before-backup-complete", {"k": disk.seq})
 
     hooks = {"on_open_w": on_open_w}
+    # the invariant must hold in the fault-free pass too (opening the output is a
+    # point where saving can fail)
+    if bak_path and entry_ok and base_ok and only is None:
+        hb = run_once(sc, hooks=hooks)
+        res.evaluations += 1
+        if hb.invariant is not None:
+            res.violate(P, hb.invariant.clause, sub="fault-free")
+            for v in res.violations:
+                v.detail.setdefault("only", {"sub": "fault-free"})
+            return
 
     def generic_after(o, label, extra):
         """Oracles that hold for every failing or cancelled run."""
@@ -755,6 +783,10 @@ def check_c06(sc, res):
             return
         o = run_once(sc, fault=fault, hooks=hooks)
         res.evaluations += 1
+        if o.invariant is not None:
+            # an invariant raised from inside the disk, possibly before the fault point
+            res.violate(P, o.invariant.clause, sub="%s@%d" % (fault["kind"], k), fault=fault)
+            return
         if not o.disk.fired:
             res.stats["fault-not-fired"] += 1
             return
@@ -791,7 +823,12 @@ def check_c06(sc, res):
 
     if only is not None:
         kind_ = only["sub"]
-        if kind_ == "body":
+        if kind_ == "fault-free":
+            hb = run_once(sc, hooks=hooks)
+            res.evaluations += 1
+            if hb.invariant is not None:
+                res.violate(P, hb.invariant.clause, sub="fault-free")
+        elif kind_ == "body":
             sub_body(only["pos"], only["exc"])
         elif kind_ == "spoil":
             sub_spoil(only["spoil"])
